@@ -105,3 +105,14 @@ func (n *BitcoinNode) VerifStopBlock(ctx context.Context) {
 		blockOnStop(ctx)
 	}
 }
+
+// VerifHandleMessage is the real dispatcher of one incoming message read from connection.
+func (n *BitcoinNode) VerifHandleMessage(ctx context.Context, connection net.Conn) error {
+	return n.handleMessage(ctx, connection)
+}
+
+// VerifAccept performs the step that follows a successful chain verification (handlers enabled,
+// node ready, first requests queued).
+func (n *BitcoinNode) VerifAccept(ctx context.Context) error {
+	return n.accept(ctx)
+}
